@@ -107,12 +107,10 @@ func handleSDIFF(params internal.HandlerFuncParams) ([]byte, error) {
 	elems := diff.GetAll()
 
 	res := fmt.Sprintf("*%d", len(elems))
-	for i, e := range elems {
+	for _, e := range elems {
 		res = fmt.Sprintf("%s\r\n$%d\r\n%s", res, len(e), e)
-		if i == len(elems)-1 {
-			res += "\r\n"
-		}
 	}
+	res += "\r\n"
 
 	return []byte(res), nil
 }
@@ -187,12 +185,10 @@ func handleSINTER(params internal.HandlerFuncParams) ([]byte, error) {
 	elems := intersect.GetAll()
 
 	res := fmt.Sprintf("*%d", len(elems))
-	for i, e := range elems {
+	for _, e := range elems {
 		res = fmt.Sprintf("%s\r\n$%d\r\n%s", res, len(e), e)
-		if i == len(elems)-1 {
-			res += "\r\n"
-		}
 	}
+	res += "\r\n"
 
 	return []byte(res), nil
 }
@@ -335,12 +331,10 @@ func handleSMEMBERS(params internal.HandlerFuncParams) ([]byte, error) {
 	elems := set.GetAll()
 
 	res := fmt.Sprintf("*%d", len(elems))
-	for i, e := range elems {
+	for _, e := range elems {
 		res = fmt.Sprintf("%s\r\n$%d\r\n%s", res, len(e), e)
-		if i == len(elems)-1 {
-			res += "\r\n"
-		}
 	}
+	res += "\r\n"
 
 	return []byte(res), nil
 }
@@ -357,12 +351,10 @@ func handleSMISMEMBER(params internal.HandlerFuncParams) ([]byte, error) {
 
 	if !keyExists {
 		res := fmt.Sprintf("*%d", len(members))
-		for i, _ := range members {
+		for range members {
 			res = fmt.Sprintf("%s\r\n:0", res)
-			if i == len(members)-1 {
-				res += "\r\n"
-			}
 		}
+		res += "\r\n"
 		return []byte(res), nil
 	}
 
@@ -445,12 +437,10 @@ func handleSPOP(params internal.HandlerFuncParams) ([]byte, error) {
 	members := set.Pop(count)
 
 	res := fmt.Sprintf("*%d", len(members))
-	for i, m := range members {
+	for _, m := range members {
 		res = fmt.Sprintf("%s\r\n$%d\r\n%s", res, len(m), m)
-		if i == len(members)-1 {
-			res += "\r\n"
-		}
 	}
+	res += "\r\n"
 
 	return []byte(res), nil
 }
@@ -485,12 +475,10 @@ func handleSRANDMEMBER(params internal.HandlerFuncParams) ([]byte, error) {
 	members := set.GetRandom(count)
 
 	res := fmt.Sprintf("*%d", len(members))
-	for i, m := range members {
+	for _, m := range members {
 		res = fmt.Sprintf("%s\r\n$%d\r\n%s", res, len(m), m)
-		if i == len(members)-1 {
-			res += "\r\n"
-		}
 	}
+	res += "\r\n"
 
 	return []byte(res), nil
 }
@@ -543,12 +531,10 @@ func handleSUNION(params internal.HandlerFuncParams) ([]byte, error) {
 	union := Union(sets...)
 
 	res := fmt.Sprintf("*%d", union.Cardinality())
-	for i, e := range union.GetAll() {
+	for _, e := range union.GetAll() {
 		res = fmt.Sprintf("%s\r\n$%d\r\n%s", res, len(e), e)
-		if i == len(union.GetAll())-1 {
-			res += "\r\n"
-		}
 	}
+	res += "\r\n"
 
 	return []byte(res), nil
 }
